@@ -61,6 +61,26 @@ CHECKS["C06"] = (
     "DESIGN.md §2 C06",
 )
 
+CHECKS["C07"] = (
+    "metamorphic executions of the real code on related cohorts (others perturbed / target alone / permuted / 1 vs 2 workers) + recorded decisions of the real individual sampler from the same RNG state; bit-identity for the target between two same-shaped executions",
+    "Held on every relation observed over model kinds, cohorts of 3-12 individuals and three personalisation families. Exploration; personalisation outputs under permutation are not judged (position-indexed draws, the statement's own caveat).",
+    "Trusts that loading two datasets into clones of the same initialised model keeps population variables fixed; hash seed pinned.",
+    "DESIGN.md §2 C07",
+)
+
+CHECKS["C13"] = (
+    "history-based differential monitor on the real API: same final call on same-parameter model objects with different call histories (fresh from fit / reloaded / after random estimate-personalize-simulate sequences / reused settings object), outputs compared bit-wise; before/after snapshots of model state and of every caller-owned input around every call",
+    "Held on every call and every pair of histories observed over logistic / linear / shared-speed / joint / Bernoulli models and the three personalisation families, estimate and simulate. Exploration over sampled histories (length <= 5).",
+    "Trusts sha256 digests of tensors / tables as equality; reload compared only when parameters reload bit-identically.",
+    "DESIGN.md §2 C13",
+)
+CHECKS["C17"] = (
+    "postconditions on the real personalize() result + recorders hooked on the algorithm instance: objective at start vs returned point through the algorithm's own objective (scipy), independent per-iteration log of draws / attachment / regularity with float64 mean / argmin over exactly the iterations k > n_burn_in (MCMC)",
+    "Held on every subject of every personalisation observed over model kinds, cohorts of 1-30 subjects (one-visit subjects, heavy missingness, str / numeric-looking / int IDs), n_iter 1-80, burn-in 0 / mid / n_iter-1, annealing on/off. Exploration. Two known findings are reported by mechanism (mixture model cannot be personalised; integer IDs with scipy_minimize).",
+    "Trusts the algorithm's own objective function for the non-worsening comparison and the state the samplers work on as the source of the recorded draws.",
+    "DESIGN.md §2 C17",
+)
+
 NOT_YET = {}
 
 QUICK_BASELINE = (
